@@ -79,12 +79,27 @@ func (w *World) UseDbResource() error {
 			}
 		}
 	}
+	haveStatic := false
+	for _, e := range w.App.Ext {
+		for lg, txt := range e.Static {
+			haveStatic = true
+			if err := put(db.DATATYPE_STATICLOAD, e.Name, lg, []byte(txt)); err != nil {
+				return err
+			}
+		}
+	}
 	store.SetLanguage(nil)
 	store.SetLock(0, true)
 	w.ResFor = func(s *Sess) resource.Resource {
 		rs := resource.NewDbResource(&lookDb{Db: store, s: s})
+		if haveStatic {
+			rs = rs.With(db.DATATYPE_STATICLOAD)
+		}
 		for _, e := range w.App.Ext {
 			e := e
+			if e.Static != nil {
+				continue // served by the library from the store
+			}
 			rs.AddLocalFunc(e.Name, func(ctx context.Context, nodeSym string, input []byte) (resource.Result, error) {
 				if s.cur != nil {
 					s.cur.Funcs++
